@@ -77,7 +77,10 @@ impl MarkdownEventsReader {
                             }
                         }
                     } else {
-                        self.metadata = Some(text.to_string());
+                        // the front matter may arrive in several text events (CRLF line endings)
+                        let mut metadata = self.metadata.take().unwrap_or_default();
+                        metadata.push_str(&text);
+                        self.metadata = Some(metadata);
                     }
                 }
                 Code(text) => {
